@@ -243,7 +243,7 @@ pub fn cmd_volume(case: &Case, cmd: &Cmd) -> u64 {
     let ttl = crate::driver::DRIVER_TTL;
     match cmd {
         Cmd::ProcessEvent { target, kind } | Cmd::ProcessQuery { target, kind } => volume(case, *target as usize, *kind, ttl, &mut memo),
-        Cmd::ProcessSource { src, kind } => case.sources[*src as usize]
+        Cmd::ProcessSource { src, kind, .. } => case.sources[*src as usize]
             .edges
             .iter()
             .map(|e| match e.target {
@@ -271,7 +271,7 @@ pub fn gen_flow_script(rng: &mut Rng, case: &Case, o: &BenchOpts, max_cmds: usiz
         } else if r < 75 && o.queries {
             Cmd::ProcessQuery { target: rng.usize(n) as u16, kind: rng.below(kinds) as u8 }
         } else if !case.sources.is_empty() {
-            Cmd::ProcessSource { src: rng.usize(case.sources.len()) as u16, kind: rng.below(kinds) as u8 }
+            Cmd::ProcessSource { src: rng.usize(case.sources.len()) as u16, kind: rng.below(kinds) as u8, pmode: rng.below(3) as u8 }
         } else {
             Cmd::ProcessEvent { target: rng.usize(n) as u16, kind: rng.below(kinds) as u8 }
         };
